@@ -14,6 +14,7 @@ configuration B (fault enumeration): the same lockstep, and around every mutatin
 
 The sqlite facade replaces the module attribute ``sqlite3`` of Pyro5.nameserver for the duration of one run.
 """
+import gc
 import os
 import re
 import shutil
@@ -437,8 +438,10 @@ class NsModelWorld(World):
             "callers invoke NameServer methods directly (no wire, no serializer)"]
     PROBES = ["reopen", "stmt_fail", "crash_point", "commit_fail", "ns_entry_protected", "regex_remove", "prefix_remove",
               "yplookup_all", "yplookup_any", "unicode_name", "wildcard_prefix", "case_pair", "duplicate_tags",
-              "invalid_regex", "numeric_name", "numeric_collision", "numeric_tag"]
-    RULE = ("plan = (configuration A|B, history of 6-14 (A) / 3-7 (B) operations over 3-7 names drawn from a colliding "
+              "invalid_regex", "numeric_name", "numeric_collision", "numeric_tag", "bulk_fill", "fault_points_sampled"]
+    RULE = ("0.6% of the plans (thorough 1.2%) are 'bulk' histories: 130-1001 entries under one prefix, then removals by prefix / regex and "
+            "listings over them; in configuration B a spread sample of ~24 of their (up to 3000) statements serves as failure / crash "
+            "points instead of every one. Otherwise: plan = (configuration A|B, history of 6-14 (A) / 3-7 (B) operations over 3-7 names drawn from a colliding "
             "alphabet: case pairs, SQL wildcards, regex metacharacters, unicode, empty string, the name server's own "
             "name, or (28% of the plans) strings that as a whole are numeric literals colliding by value ('42','042','4.2e1',"
             "'1e3','1000','3.1','3.10','+7',' 42', unicode digits, inf, nan ...), 10% both; tags likewise with duplicates). A: model, memory and sqlite in lockstep, outcome of every operation "
@@ -471,6 +474,19 @@ class NsModelWorld(World):
         else:
             pool = {"names": NAMES + NUM_NAMES[:-1], "prefixes": PREFIXES + NUM_PREFIXES, "regexes": REGEXES + NUM_REGEXES,
                     "tags": TAGS + NUM_TAGS[:-2]}
+        if rng.random() < (0.012 if tier == "thorough" else 0.006):
+            # 'bulk' history: hundreds of entries under one prefix (sizes around round numbers: a back-end that works in batches,
+            # builds one statement for all of them or keeps a bounded cache shows here), then removals / listings over them
+            n = rng.choice([130, 501, 513, 1001] if tier == "thorough" else [130, 501, 513])
+            tail = []
+            for _ in range(rng.randint(1, 2)):
+                tail.append(rng.choice([{"op": "remove", "by": "prefix", "arg": "blk."}, {"op": "remove", "by": "regex", "arg": "blk\\.\\d+$"},
+                                        {"op": "remove", "by": "prefix", "arg": "blk.00"}, {"op": "remove", "by": "prefix", "arg": "blk.05"}]))
+                tail.append(rng.choice([{"op": "count"}, {"op": "list", "by": "prefix", "arg": "blk.", "rm": False},
+                                        {"op": "yplookup", "mode": "any", "tags": ["bt"], "rm": False}]))
+            return {"config": cfg, "bulk": True,
+                    "ops": [{"op": "register", "name": "a", "uri": "PYRO:o0@h:1", "safe": False, "meta": None},
+                            {"op": "fill", "prefix": "blk.", "n": n, "tag": rng.choice([None, "bt"])}] + tail}
         names = rng.sample(pool["names"], rng.randint(3, 6))
         if rng.random() < 0.35 and NSNAME not in names:
             names.append(NSNAME)
@@ -574,6 +590,18 @@ class NsModelWorld(World):
         for i, op in enumerate(plan["ops"]):
             kind = _kind(op)
             _touch(touched, op)
+            if kind == "fill":
+                # set-up step of the 'bulk' histories: many entries under one prefix, put into the map and both back-ends
+                # through register(); not judged by itself
+                ctx.probe("bulk_fill")
+                ctx.sched.ev("op", i, kind, op["n"])
+                for j in range(op["n"]):
+                    name, uri = "%s%04d" % (op["prefix"], j), "PYRO:f%d@h:1" % j
+                    meta = [op["tag"]] if op.get("tag") and j % 3 == 0 else None
+                    model[name] = (uri, frozenset(meta or ()))
+                    mem.register(name, uri, metadata=meta)
+                    sql.register(name, uri, metadata=meta)
+                continue
             if kind == "reopen":
                 ctx.probe("reopen")
                 ctx.sched.ev("op", i, kind)
@@ -584,6 +612,8 @@ class NsModelWorld(World):
                                 % (i, _canon(l_sql), _canon(l_model)))
                     return
                 continue
+            if plan.get("bulk"):
+                gc.collect()
             mutating = kind in MUTATING
             before = dict(model)
             expect = model_apply(model, op)
@@ -682,8 +712,20 @@ class NsModelWorld(World):
         commits = [j for j, s in enumerate(stmts) if s == "COMMIT"]
         a_before = _expected_answers(before, names, plain, tags)
         ok = True
+        # (an operation over hundreds of entries issues thousands of statements: then a spread sample of them - the first and the
+        #  last few, and evenly spaced ones in between - instead of every one)
+        points = list(range(len(stmts)))
+        if len(points) > 48:
+            step = max(1, len(points) // 14)
+            points = sorted(set(points[:4]) | set(points[-6:]) | set(points[::step]))
+            ctx.probe("fault_points_sampled")
         # ---- (a) statement k raises sqlite3.OperationalError
-        for k in range(len(stmts)):
+        bulk = len(stmts) > 48
+        for k in points:
+            if bulk:
+                # sqlite3 connections that SqlStorage leaves to the garbage collector are part of reference cycles; the collector is
+                # off during a run, and an operation over a thousand names opens a thousand of them (descriptor limit)
+                gc.collect()
             self._restore(path, pre)
             ns = NS.NameServer(NS.SqlStorage(path))
             for n in names:                     # a live server has answered lookups before (matters if the storage caches)
@@ -731,7 +773,9 @@ class NsModelWorld(World):
             if os.path.exists(path + "-journal"):
                 shutil.copyfile(path + "-journal", cpath + "-journal")
 
-        for k in range(len(stmts)):
+        for k in points:
+            if bulk:
+                gc.collect()
             self._restore(path, pre)
             ns = NS.NameServer(NS.SqlStorage(path))
             fac.arm("crash", k, snapshot)
